@@ -43,7 +43,11 @@ func (m *MTProto) sendPacket(request tl.Object, expectedTypes ...reflect.Type) (
 	resp := m.getRespChannel()
 	if isNullableResponse(request) {
 		go func() { resp <- &objects.Null{} }() // goroutine cuz we don't read from it RIGHT NOW
-	} else {
+	} else if !m.serviceModeActivated {
+		// answers of key exchange are not addressed by msg id, reading routine gives them to service channel
+		// itself. registering that channel made every key exchange request an "awaited" one forever: any later
+		// message of server which names its id (rpc_result, bad_server_salt) was sent to the channel nobody reads
+		// anymore, and reading routine stopped
 		m.responseChannels.Add(int(msgID), resp)
 	}
 
